@@ -11,7 +11,7 @@
 From Coq Require Import List Arith NArith ZArith Bool Lia.
 From SudachiVerif Require Model.Buffer Proofs.BufferProofs Proofs.PipelineProofs.
 From SudachiVerif Require Import Model.Lattice Model.BuildLattice Proofs.BuildLatticeProofs Proofs.BuildOptimal.
-From SudachiVerif Require Import Model.Trie Model.WordIdTable Model.LexSet Proofs.TrieProofs Proofs.LexSetProofs.
+From SudachiVerif Require Import Model.Trie Model.WordIdTable Model.LexSet Model.DictCands Proofs.TrieProofs Proofs.LexSetProofs.
 Import ListNotations.
 Open Scope nat_scope.
 
@@ -222,18 +222,14 @@ Section Adapter.
     - rewrite app_nth1 by (rewrite b2c_scan_length; lia). rewrite b2c_scan_nth by (try lia; assumption). lia.
   Qed.
 
-  (* the node build_lattice makes from a lookup entry (word id irrelevant for the lattice model) *)
-  Definition of_lookup (t : list N) (ch_off : nat) (e : N) (lft rgt : N) (cost : Z) : node :=
-    mkNode ch_off (nth (N.to_nat e) (B.mod_b2c cfg t) 0) lft rgt cost.
-
   (* character begin = ch_off, byte begin = mod_c2b[ch_off]; an entry with byte_off < end <= |t| on a boundary gives a
      well-formed node *)
   Lemma of_lookup_wf t ch_off e lft rgt cost :
     B.wf_text t = true -> ch_off < PP.nchars t ->
     nth ch_off (B.mod_c2b t) 0 < N.to_nat e <= length t -> B.is_boundary t (N.to_nat e) = true ->
-    node_wf (PP.nchars t) ch_off (of_lookup t ch_off e lft rgt cost).
+    node_wf (PP.nchars t) ch_off (mkNode ch_off (nth (N.to_nat e) (B.mod_b2c cfg t) 0) lft rgt cost).
   Proof.
-    intros Hwf Hch [Hlt Hle] Hb. unfold node_wf, of_lookup. cbn [nbeg nend].
+    intros Hwf Hch [Hlt Hle] Hb. unfold node_wf. cbn [nbeg nend].
     assert (Hn : PP.nchars t = B.count_leads t).
     { unfold PP.nchars, B.mod_c2b. rewrite app_length, BP.c2b_scan_length. cbn. lia. }
     assert (Hne : t <> []) by (intros ->; rewrite Hn in Hch; cbn in Hch; lia).
@@ -247,23 +243,15 @@ Section Adapter.
     - rewrite Hn. apply count_leads_firstn_le.
   Qed.
 
-  (* the dictionary candidates of build_lattice at character ch_off: lookup at byte mod_c2b[ch_off], entries that end inside
-     the text at a position where no word may begin are skipped, parameters come from the lexicon *)
-  Definition dict_cands (lexs : list lexicon) (params : N -> N * N * Z) (bow : nat -> bool) (t : list N) (ch_off : nat) : list node :=
-    match lookup_set lexs t (nth ch_off (B.mod_c2b t) 0) with
-    | None => []
-    | Some l =>
-        map (fun we => let '(lft, rgt, cost) := params (fst we) in of_lookup t ch_off (snd we) lft rgt cost)
-            (filter (fun we => negb (N.to_nat (snd we) <? length t) || bow (N.to_nat (snd we))) l)
-    end.
-
+  (* the dictionary candidates of build_lattice at character ch_off are Model/DictCands.v `dict_cands` *)
   Theorem dict_cands_wf lexs params bow t ch_off m :
     (forall L, In L lexs -> lex_keys_utf8 L) -> bytes t -> chars_ok t -> ch_off < PP.nchars t ->
-    In m (dict_cands lexs params bow t ch_off) -> node_wf (PP.nchars t) ch_off m.
+    In m (dict_cands cfg lexs params bow t ch_off) -> node_wf (PP.nchars t) ch_off m.
   Proof.
-    intros Hall Hb Ht Hch Hin. unfold dict_cands in Hin.
+    intros Hall Hb Ht Hch Hin. unfold dict_cands, dict_entries in Hin.
     destruct (lookup_set lexs t (nth ch_off (B.mod_c2b t) 0)) as [l|] eqn:El; [|contradiction].
-    apply in_map_iff in Hin. destruct Hin as ([w e] & <- & Hf). apply filter_In in Hf. destruct Hf as [Hf _].
+    apply in_map_iff in Hin. destruct Hin as ([w ce] & <- & Hin). apply in_map_iff in Hin.
+    destruct Hin as ([w' e] & Heq & Hf). injection Heq as -> <-. apply filter_In in Hf. destruct Hf as [Hf _].
     cbn [fst snd]. destruct (params w) as [[lft rgt] cost].
     assert (Hwf : B.wf_text t = true) by (rewrite <- BP.is_boundary_hd; exact (chars_ok_head t Ht)).
     destruct (PP.mod_c2b_props t ch_off ltac:(lia)) as [Hboff _].
@@ -278,21 +266,15 @@ Section Adapter.
     (forall p m, In m (oov p) -> node_wf (PP.nchars t) p m) ->
     (forall p f, fallback p = Some f -> node_wf (PP.nchars t) p f) ->
     forall p m, p < PP.nchars t ->
-      In m (offered (fun q => dict_cands lexs params bow t q ++ oov q) fallback p) -> node_wf (PP.nchars t) p m.
+      In m (offered (fun q => dict_cands cfg lexs params bow t q ++ oov q) fallback p) -> node_wf (PP.nchars t) p m.
   Proof.
     intros Hall Hb Ht Hoov Hfb p m Hp Hin. unfold offered in Hin.
-    destruct (dict_cands lexs params bow t p ++ oov p) as [|c cs] eqn:Ec.
+    destruct (dict_cands cfg lexs params bow t p ++ oov p) as [|c cs] eqn:Ec.
     - destruct (fallback p) as [f|] eqn:Ef; [|contradiction]. destruct Hin as [<-|[]]. exact (Hfb p f Ef).
     - rewrite <- Ec in Hin. apply in_app_or in Hin. destruct Hin as [Hin|Hin].
       + exact (dict_cands_wf lexs params bow t p m Hall Hb Ht Hp Hin).
       + exact (Hoov p m Hin).
   Qed.
-
-  (* the candidate source of build_lattice: the loop visits the character positions 0 .. n-1 only *)
-  Definition lattice_cands lexs params bow t (oov : nat -> list node) (p : nat) : list node :=
-    if p <? PP.nchars t then dict_cands lexs params bow t p ++ oov p else [].
-  Definition lattice_fallback t (fallback : nat -> option node) (p : nat) : option node :=
-    if p <? PP.nchars t then fallback p else None.
 
   (* C02's optimality theorem for the tokenizer loop with the dictionary half of its hypothesis discharged: the lattice built
      from lookup results of certified lexicons plus any well-formed OOV candidates yields the minimum cost over all chains of
@@ -302,17 +284,17 @@ Section Adapter.
     (forall p m, p < PP.nchars t -> In m (oov p) -> node_wf (PP.nchars t) p m) ->
     (forall p f, p < PP.nchars t -> fallback p = Some f -> node_wf (PP.nchars t) p f) ->
     0 < PP.nchars t ->
-    build conn (lattice_cands lexs params bow t oov) (lattice_fallback t fallback) (PP.nchars t) = Some (L, (r, i, c)) ->
-    (exists p, chainP (Offered (lattice_cands lexs params bow t oov) (lattice_fallback t fallback)) 0 (PP.nchars t) p
+    build conn (lattice_cands cfg lexs params bow t oov) (lattice_fallback t fallback) (PP.nchars t) = Some (L, (r, i, c)) ->
+    (exists p, chainP (Offered (lattice_cands cfg lexs params bow t oov) (lattice_fallback t fallback)) 0 (PP.nchars t) p
                /\ path_cost conn p = c) /\
-    (forall p, chainP (Offered (lattice_cands lexs params bow t oov) (lattice_fallback t fallback)) 0 (PP.nchars t) p ->
+    (forall p, chainP (Offered (lattice_cands cfg lexs params bow t oov) (lattice_fallback t fallback)) 0 (PP.nchars t) p ->
                (c <= path_cost conn p)%Z).
   Proof.
     intros Hall Hb Ht Hoov Hfb Hn Hbuild.
-    refine (build_optimal conn (lattice_cands lexs params bow t oov) (lattice_fallback t fallback) (PP.nchars t) _ L r i c Hn Hbuild).
-    intros p m Hin. unfold offered, lattice_cands, lattice_fallback in Hin.
+    refine (build_optimal conn (lattice_cands cfg lexs params bow t oov) (lattice_fallback t fallback) (PP.nchars t) _ L r i c Hn Hbuild).
+    intros p m Hin. unfold offered, lattice_cands, lattice_fallback in Hin. change (nchars t) with (PP.nchars t) in Hin.
     destruct (p <? PP.nchars t) eqn:Ep; [|contradiction]. apply Nat.ltb_lt in Ep.
-    destruct (dict_cands lexs params bow t p ++ oov p) as [|c0 cs] eqn:Ec.
+    destruct (dict_cands cfg lexs params bow t p ++ oov p) as [|c0 cs] eqn:Ec.
     - destruct (fallback p) as [f|] eqn:Ef; [|contradiction]. destruct Hin as [<-|[]]. exact (Hfb p f Ep Ef).
     - rewrite <- Ec in Hin. apply in_app_or in Hin. destruct Hin as [Hin|Hin].
       + exact (dict_cands_wf lexs params bow t p m Hall Hb Ht Ep Hin).
